@@ -533,7 +533,7 @@ def gen_stream(rng):
 
 
 def generate(rng, tier):
-    n = 500 if tier == "quick" else 8000
+    n = 500 if tier == "quick" else 6000
     out = []
     for _ in range(n):
         out.append(gen_server(rng) if rng.random() < 0.6 else gen_stream(rng))
